@@ -18,6 +18,7 @@ PubInitsD == {
 PubInitsQ == {
   Pub(ZonesQ, [z \in ZonesQ |-> 7], [z \in ZonesQ |-> NoDS]),
   Pub(ZonesQ, [z \in ZonesQ |-> IF z = "p" THEN 3 ELSE 7], [z \in ZonesQ |-> IF z = "c" THEN 1 ELSE NoDS]) }
+AuxNone == {NoAux}
 KeysNone == {"tg"}
 ChainNone == <<"tg">>
 =============================================================================
